@@ -220,6 +220,64 @@ def value_checks(seed):
         if not torch.allclose(res.reshape(-1), want.reshape(-1).detach(), rtol=0, atol=1e-12):
             bad.append(dict(case=name, violated='get_residuals with one tensor passed for both coordinates differs from the equations applied to '
                             'the solution (partial derivatives became total derivatives)', got=res.reshape(-1).tolist()[:4], want=want.reshape(-1).tolist()[:4]))
+        # (vi) copy=True with FROZEN parameters (fine-tuning): the snapshot owns them too - later un-freezing / in-place edits do not reach it
+        import torch.nn as nn
+        fnet = FCNN(1, 1, hidden_units=(3,))
+        frozen = list(fnet.parameters())[:2]
+        for p_ in frozen:
+            p_.requires_grad_(False)
+        sf = S.Solver1D(lambda u, t: [diff(u, t) + u], [IVP(0., 1.)], t_min=0., t_max=1., nets=[fnet],
+                        train_generator=Generator1D(5, 0., 1.), valid_generator=Generator1D(5, 0., 1.))
+        sf.fit(2, tqdm_file=None)
+        for best in (False, True):
+            snap = sf.get_solution(copy=True, best=best)
+            src = sf.best_nets if best else sf.nets
+            before = snap(tt).clone()
+            with torch.no_grad():
+                for p_ in list(src[0].parameters())[:2]:
+                    p_.add_(0.75)
+            after = snap(tt)
+            if not torch.equal(before, after):
+                bad.append(dict(case='Solver1D with frozen first layer', violated='copy=True solution follows a later in-place change of a frozen '
+                                '(requires_grad=False) parameter of the solver\'s networks', best=best,
+                                drift=float((before - after).abs().max())))
+            if any(a is b for a, b in zip(snap.nets[0].parameters(), src[0].parameters())):
+                bad.append(dict(case='Solver1D with frozen first layer', violated='copy=True shares parameter tensors with the solver', best=best))
+
+        # (vii) mode-dependent layers: the solution is condition(net) with the network AS TRAINED (same mode), copy or not
+        class ModeLayer(nn.Module):
+            def forward(self, x):
+                return x * (1.0 if self.training else 0.5)
+        mnet = nn.Sequential(nn.Linear(1, 3), nn.Tanh(), ModeLayer(), nn.Linear(3, 1))
+        sm = S.Solver1D(lambda u, t: [diff(u, t) + u], [IVP(0., 1.)], t_min=0., t_max=1., nets=[mnet],
+                        train_generator=Generator1D(5, 0., 1.), valid_generator=Generator1D(5, 0., 1.))
+        sm.fit(2, tqdm_file=None)
+        for best in (False, True):
+            src = sm.best_nets if best else sm.nets
+            modes = [bool(n.training) for n in src]
+            want = sm.conditions[0].enforce(src[0], tt.reshape(-1, 1)).reshape(tt.shape)
+            for copy in (True, False):
+                sol_ = sm.get_solution(copy=copy, best=best)
+                if not torch.equal(sol_(tt), want) or [bool(n.training) for n in sol_.nets] != modes or [bool(n.training) for n in src] != modes:
+                    bad.append(dict(case='network with a mode-dependent layer', violated='solution differs from condition(network) of the selected '
+                                    'network (training / eval mode of the networks changed)', copy=copy, best=best,
+                                    modes_of_solution_nets=[bool(n.training) for n in sol_.nets], modes_of_solver_nets=modes))
+        # (viii) residuals of equations that couple the points (integral / mean-field terms), on MANY points, numpy or not
+        nl = lambda u, t: [diff(u, t) + u - u.mean()]
+        sn = S.Solver1D(nl, [IVP(0., 1.)], t_min=0., t_max=1., nets=[FCNN(1, 1, hidden_units=(3,))],
+                        train_generator=Generator1D(5, 0., 1.), valid_generator=Generator1D(5, 0., 1.))
+        sn.fit(1, tqdm_file=None)
+        for npts in (7, 4099, 33000, 70001):
+            tl = torch.linspace(0., 1., npts)
+            cs = [tl.reshape(-1, 1).requires_grad_()]
+            want = nl(sn.get_solution(copy=False, best=True)(*cs), *cs)[0].detach().reshape(-1)
+            for to_numpy in (True, False):
+                got = sn.get_residuals(tl, to_numpy=to_numpy)
+                got = torch.as_tensor(got).detach().reshape(-1)
+                if got.shape != want.shape or not torch.equal(got, want):
+                    bad.append(dict(case='Solver1D, equation with a mean-field term', violated='get_residuals != equations applied to the solution at '
+                                    'the given coordinates', n_points=npts, to_numpy=to_numpy,
+                                    max_error=float((got - want).abs().max()) if got.shape == want.shape else 'shape'))
         # spherical harmonics solution: sum_k enforce(net, r)_k * Y_k
         hf = RealSphericalHarmonics(max_degree=2)
         net = FCNN(1, 9, hidden_units=(5,))
